@@ -96,6 +96,16 @@ CHECKS = {
    "All log records at every level Off..Trace (capturing logger), every datagram received, stdout/stderr of real server runs from file and ENV sources (accepted and refused configurations) are searched for the seed, the Ed25519 private scalar and the expanded key halves in raw, hex, HEX, base64, base64url and Debug-list form; a planted-seed self-test guards against a blind scanner.",
    "Seeds are a structured alphabet. Secrets at a shifted alignment inside a larger base64 blob are not searched for.",
    "DESIGN.md §3 C20"),
+ "C18": ("E-STATE+E-SCHED", "model_checking",
+   "stateless model checking of the real server process under a controlled scheduler (hook points, iterative preemption bounding) plus exhaustive in-process multi-Server delivery/step histories",
+   "In-process: all sequences of depth 7 (thorough 8) over deliver(w)/step(w) for W=2 (thorough also W=3) real Servers from one seed. Controlled: N=2 workers, K=2 requests (thorough: N,K in {2,3}, every distribution realised through the learned SO_REUSEPORT port->worker map), all interleavings of worker batch steps and environment sends up to preemption bound 2 (thorough 3). Oracle: one authentic reply per request from the worker it was delivered to under the single long-term key, stable distinct delegated keys, no thread exit/panic, all workers idle at the end.",
+   "Interleavings at hook granularity; weak-memory effects not modelled; the thorough tier's 16-worker closed-loop run is sampled conformance evidence.",
+   "DESIGN.md §3 C18"),
+ "C19": ("E-SCHED", "model_checking",
+   "stateless model checking of the real server process under a controlled scheduler with the signal as an environment actor at every position; adversarial flood lasso; sampled wall-clock runs",
+   "N in {1,2} workers (thorough up to 4), client_stats off/on, K requests, SIGINT/SIGTERM placed at every program position and interleaved at every hook point up to the preemption bound: the process must exit 0 within the horizon under the fair continuation (no deadlock, no livelock, no panic text) and every reply received must be authentic. Flood lasso: with the socket refilled at every batch boundary after the flag is stored the worker must still reach the flag check.",
+   "'A few seconds' is decided in steps; wall-clock runs (idle, closed-loop, --stress flood) are sampled conformance evidence. Signal delivery is treated as one atomic environment action.",
+   "DESIGN.md §3 C19"),
 }
 
 PENDING_REASON = "check not built yet in this session (planned, see DESIGN.md §3); no claim is made until it is"
